@@ -468,6 +468,8 @@ def c10(res, tier, seed, replay):
     # the batch algorithm of the graph index with every distance-dependent choice left open
     design_check(res, "Graph", "Graph.cfg" if tier == "quick" else "Graph.deep.cfg", timeout=3000, heap="12g")
     expect_design_violation(res, "Graph", "Graph.neg.cfg", "BoundAlways", "back edges added up to the degree bound + 1")
+    expect_design_violation(res, "Graph", "Graph.split.cfg", "BoundAlways",
+                            "an insert worker looks at a neighbour's edge count, releases its lock and appends later without a second look")
     expect_design_violation(res, "Graph", "Graph.reach.cfg", "AllReachable",
                             "documented design observation: the structure alone does not keep every node reachable from the entry node "
                             "(pruning may drop the only inbound edge); reachability is not part of C10")
